@@ -1,7 +1,7 @@
 // C13: mesh copy and assignment are deep and leave the two meshes independent.
 // shard params: 0 = mesh type (0 TopologyKernel, 1 GeometryKernel<Vec3i,TopologyKernel>), 1 = copy kind (CopyKind), 2 = source base
 // (mesh_common.h Base), 3 = pending deferred deletion in the source (0 none, 1 last edge, 2 vertex 0), 4 = chunk of the
-// (side, mutation) alphabet (C13_CASES per query, selector-dispatched), 5 = bottom-up oracle level for the copy (0/1).
+// (side, mutation) alphabet (C13_CASES = 2 per query, selector-dispatched), 5 = bottom-up oracle level for the copy (0/1).
 // Source: base mesh, symbolic vertex positions (geometry kernel), a shared int property "s", a private anonymous bool property, persistent
 // int "p" and bool "q" -- all with symbolic values -- and their handles held by the harness across the copy.  Target of CK_ASSIGN_NONEMPTY:
 // base B_TRI2 with its own shared "s", persistent "p" and private properties whose handles are held across the assignment.
@@ -55,9 +55,10 @@ template <class M> static void run_case(unsigned i) {
   default: return;
   }
   // ---- the source is untouched by being copied from
-  { Obs o; observe(src, o); same_mesh_state(o_src0, o, geo, "C13 copying leaves the source's entities, definitions and deletion state unchanged");
+  Obs o_src1; PVals pv_src1;
+  { Obs &o = o_src1; observe(src, o); same_mesh_state(o_src0, o, geo, "C13 copying leaves the source's entities, definitions and deletion state unchanged");
     v_assert(o.npropsV == o_src0.npropsV && o.npersV == o_src0.npersV, "C13 copying leaves the source's property registry unchanged");
-    PVals pv; read_persistent(src, pv); same_persistent(pv_src0, pv, "C13 copying leaves the source's persistent property values unchanged");
+    PVals &pv = pv_src1; read_persistent(src, pv); same_persistent(pv_src0, pv, "C13 copying leaves the source's persistent property values unchanged");
     v_assert(src.template property_exists<int, Entity::Vertex>(std::string("s")) && bool(ps) && ps.shared() && bool(pa) && pp.persistent(), "C13 source handles stay attached and findable"); }
   if (kind == CK_SELF) { if (i == 0 && chunk == 0) v_witness("C13 self-assignment leaves the mesh as it was"); return; }
   M &c = *cpy;
@@ -89,8 +90,8 @@ template <class M> static void run_case(unsigned i) {
   M &other = side == 0 ? c : src;
   if (!mut_valid(mut, op, a, b)) return;
   if (op == MU_POS && !geo) return;
-  Obs o_other0; observe(other, o_other0);
-  PVals pv_other0; read_persistent(other, pv_other0);
+  const Obs &o_other0 = side == 0 ? o_c0 : o_src1;          // the other side as observed right after the copy
+  const PVals &pv_other0 = side == 0 ? pv_c0 : pv_src1;
   int s_before[MAXV]; bool a_before[MAXV];
   for (int v = 0; v < MAXV; ++v) if (v < nV) { s_before[v] = ps[VH(v)]; a_before[v] = pa[VH(v)]; }
   if (op < MU_PW_P) apply_op(mut, op, a, b);
@@ -120,6 +121,9 @@ template <class M> static void run_case(unsigned i) {
 }
 
 static void do_case(unsigned i) {
+#ifdef C13_ONLY
+  if (i != C13_ONLY) return;   // development only
+#endif
   if (v_param(0) == 0) run_case<TopologyKernel>(i); else run_case<GeoMesh>(i);
 }
 
